@@ -358,12 +358,65 @@ NOT_YET = "check not built yet in this round (work in progress; see DESIGN.md se
 ALL = [f"C{n:02d}" for n in range(1, 21)]
 
 
+# what later rounds added to the workloads (appended to the level text)
+ADDENDA = {
+    "C03": "A quarter of the loads are preceded by a load of the same text "
+           "through a differently configured parser (Decimal/Fraction reals, "
+           "other quantity class, caller's containers, another dialect).",
+    "C04": "Which dialect a worker uses first differs from shard to shard.",
+    "C05": "For the ISIS reader also blocks begun with another dialect's "
+           "spelling of the keyword (the only anomaly is a dialect rule).",
+    "C06": "Also: four configurations with real_cls=Decimal on the "
+           "number-heavy sources, numbers beyond what int/float/Decimal take, "
+           "labels with thousands of different words, and half of the workers "
+           "keep one parser object per configuration for all their loads.",
+    "C07": "A third source of t0 are texts written by the four encoders "
+           "(random options) from generated modules (cross-dialect chains).",
+    "C08": "The default loader is called five ways: fresh OmniParser, "
+           "pvl.loads(text), one long-lived parser per worker, and with the "
+           "caller's own container classes (derived from the defaults / built "
+           "on the multi-dict).",
+    "C10": "Also negative key_index instances, and histories over up to three "
+           "live containers built from one another (constructor, copy(), "
+           "extend / insert with a container as the source), each compared "
+           "with its own model after every step.",
+    "C11": "After each mutation round every accessor of both sides (lookup, "
+           "getall, key_index, view indexing) is compared with a model of that "
+           "side's own list.",
+    "C13": "Also modules in the multidict-based containers of pvl.new through "
+           "pvl.new.dumps, and values of the caller's own classes with "
+           "add_quantity_cls called on other encoder objects between dumps.",
+    "C15": "Five loader routes: the dialect's parser, loads/load with "
+           "grammar=, loads/load with the dialect's decoder alone.",
+    "C16": "Also two user-subclass parser configurations and a family of "
+           "modules around refusals raised part-way through a nested value.",
+    "C17": "Also six encoders built with a grammar and a decoder of different "
+           "dialects (writer law only), and a sample of the strings "
+           "re-observed in a pristine process.",
+    "C18": "Substitutes are handed over through every loader entry point "
+           "(str, bytes, streams, path, file: URL; with and without data "
+           "behind END); a third of the cases build the plain and the "
+           "customised parser around one grammar object, in either order.",
+    "C19": "Also the same optional loader arguments on both sides (15 "
+           "grammar=/decoder= configurations, fresh objects per side, "
+           "interleaved in one process).",
+    "C20": "Also 19 small labels around what one or another encoder refuses, "
+           "in a shuffled order (the tools keep one encoder per format).",
+}
+HISTORY_NOTE = (" Every second worker process first lives through a history "
+                "of ordinary calls in other dialects and configurations "
+                "(vlib/prelude.py) before it starts its workload.")
+
+
 def main():
     checks = []
     for pid in ALL:
         if pid not in CHECKS:
             continue
         tech, text, note, ref = CHECKS[pid]
+        if pid in ADDENDA:
+            text = text.rstrip() + " " + ADDENDA[pid]
+        text += HISTORY_NOTE
         checks.append({
             "property_id": pid,
             "quick_cmd": f"./check {pid} --tier quick",
